@@ -36,6 +36,9 @@ def c_qual(ex):
 
 class Exec(MonitorMixin, DictMixin, StmtMixin, CallMixin, BuiltinMixin, ExprMixin, Core):
     def __init__(self, registry: Registry, contract: Contract):
+        from . import sorts as _sorts, state as _state
+        _sorts.reset_counter()
+        _state.reset_refs()
         Core.__init__(self, registry, contract)
         self.cur_mod = self.mod
         self.cur_loopbase = None
